@@ -115,12 +115,26 @@ mod replay {
     use std::sync::{Arc, Condvar, Mutex};
     use std::time::{Duration, Instant};
 
-    const STEP_TIMEOUT: Duration = Duration::from_secs(4);
+    /// How long the controller waits for an arrival the schedule expects. Nothing on the unchanged tree comes
+    /// near it; once a process has reported several stalls (the code under test does something else than the
+    /// model, the verdict is a mismatch already) the wait is shortened so that the report does not take minutes.
+    static STALLS_REPORTED: AtomicU32 = AtomicU32::new(0);
+    static STALLS_RETRIED: AtomicU32 = AtomicU32::new(0);
+    const STALL_RETRY_BUDGET: u32 = 3;
+    fn step_timeout() -> Duration {
+        if STALLS_REPORTED.load(Ordering::Relaxed) >= 4 { Duration::from_millis(1500) } else { Duration::from_secs(4) }
+    }
+    /// re-runs of a schedule whose select! step polled the other ready branch first (probability about 1/2 each)
+    const ATTEMPTS: usize = 20;
 
     #[derive(Clone, Copy, PartialEq, Eq, Hash, Debug)]
     enum Tid {
         Task(u64),
         Os(u64),
+    }
+    fn debug() -> bool {
+        static D: std::sync::OnceLock<bool> = std::sync::OnceLock::new();
+        *D.get_or_init(|| std::env::var("KVH_C10_DEBUG").is_ok())
     }
     fn hash_id<T: std::hash::Hash>(t: &T) -> u64 {
         use std::hash::Hasher;
@@ -141,6 +155,7 @@ mod replay {
         Conn(u16),     // by peer port
         Caller(usize),
         Comp,
+        Exec, // the thread running `RunConfig::execute` (start-up replay only)
     }
 
     #[derive(Default)]
@@ -154,28 +169,53 @@ mod replay {
     struct Inner {
         threads: HashMap<Tid, Th>,
         roles: HashMap<Role, Tid>,
+        has_role: std::collections::HashSet<Tid>,
+        unscheduled: u64, // arrivals of threads that are none of the model's threads
         free: bool,
         caller_reg: HashMap<u64, usize>, // os thread -> caller index
+        exec_os: Option<u64>,            // os thread running `execute()` in a start-up replay
         verdict_panic: HashMap<u16, bool>, // peer port -> panic?
     }
     pub struct Ctl {
         inner: Mutex<Inner>,
         cv: Condvar,
+        /// name of every thread of this run (runtime workers, blocking pool, callers)
+        thread_name: String,
     }
+    static RUN_COUNTER: AtomicU32 = AtomicU32::new(0);
+    const THREAD_PREFIX: &str = "kvh-c10-";
     impl Ctl {
         fn new() -> Arc<Self> {
-            Arc::new(Ctl { inner: Mutex::new(Inner::default()), cv: Condvar::new() })
+            let n = RUN_COUNTER.fetch_add(1, Ordering::Relaxed);
+            Arc::new(Ctl { inner: Mutex::new(Inner::default()), cv: Condvar::new(), thread_name: format!("{THREAD_PREFIX}{n}") })
         }
         /// called from the instrumented code (and from the handler)
         fn arrive(&self, name: &'static str, val: i64) {
-            // hook points of other properties (C11: "ex.*", "ctl.*") are not steps of this model: pass through
-            if !matches!(name.split('.').next(), Some("al" | "ap" | "co" | "ct" | "rm" | "sh")) {
+            // hook points of other properties (C11: "ex.*", "ctl.*") are not steps of this model: pass through.
+            // "hd.run" is this harness' own point inside the request handler.
+            // The points of the start-up program ("ex.bind", "ex.bound") are steps only in a start-up replay, for the
+            // thread registered as running `execute()` (see below).
+            let prefix = name.split('.').next();
+            let is_ex = prefix == Some("ex");
+            if !is_ex && !matches!(prefix, Some("al" | "ap" | "co" | "ct" | "rm" | "sh" | "hd")) {
                 return;
             }
+            // The hook is process-wide: a thread left over from an earlier run of this process (its runtime is
+            // shut down with a timeout, blocked threads outlive it) is not part of this run.
+            if let Some(n) = std::thread::current().name() {
+                if n.starts_with(THREAD_PREFIX) && n != self.thread_name {
+                    return;
+                }
+            }
             let tid = current_tid();
+            if debug() { eprintln!("arrive {name} {val} {tid:?}"); }
             let mut g = self.inner.lock().unwrap();
+            if is_ex && !matches!(tid, Tid::Os(o) if g.exec_os == Some(o)) {
+                return;
+            }
             // role assignment by the first point a thread reaches
             let role = match name {
+                "ex.bind" => Some(Role::Exec),
                 "al.top" => Some(Role::Listener(val as u16)),
                 "co.start" => Some(Role::Conn(val as u16)),
                 "ct.start" => Some(Role::Comp),
@@ -186,7 +226,20 @@ mod replay {
                 _ => None,
             };
             if let Some(r) = role {
-                g.roles.entry(r).or_insert(tid);
+                if !g.roles.contains_key(&r) && !g.has_role.contains(&tid) {
+                    g.roles.insert(r, tid);
+                    g.has_role.insert(tid);
+                }
+            }
+            // A thread that is none of the model's threads (e.g. `RunConfig::execute` itself touching the
+            // count) is not scheduled: nobody would ever release it. It passes; what it did to the shared
+            // state shows in the next observation.
+            if !g.has_role.contains(&tid) {
+                if !g.free {
+                    g.unscheduled += 1;
+                    if debug() { eprintln!("STRAY {name} {val} {tid:?}"); }
+                }
+                return;
             }
             let free = g.free;
             let th = g.threads.entry(tid).or_default();
@@ -263,6 +316,9 @@ mod replay {
         fn known(&self, role: Role) -> bool {
             self.inner.lock().unwrap().roles.contains_key(&role)
         }
+        fn unscheduled(&self) -> u64 {
+            self.inner.lock().unwrap().unscheduled
+        }
         fn set_free(&self) {
             self.inner.lock().unwrap().free = true;
             self.cv.notify_all();
@@ -325,7 +381,11 @@ mod replay {
         p: Params,
         ctl: Arc<Ctl>,
         rt: tokio::runtime::Runtime,
-        mgr: Arc<shutdown::Manager>,
+        mgr: Option<Arc<shutdown::Manager>>, // None while `execute()` has not returned (start-up replay)
+        boot_rx: Option<std::sync::mpsc::Receiver<Arc<shutdown::Manager>>>,
+        bk: usize,  // start-up: listeners started
+        bph: u8,    // start-up: what execute() does next for listener bk (0 count, 1 bind + listen, 2 spawn)
+        boot_shape: bool, // start-up: execute() reached the first point of the start-up program
         ports: Vec<u16>,
         lst: Vec<LSt>,
         clients: Vec<Client>,
@@ -387,11 +447,11 @@ mod replay {
     }
 
     impl Run {
-        fn start(p: Params) -> Option<Run> {
+        fn prepare(nl: usize) -> Option<(Arc<Ctl>, tokio::runtime::Runtime, Vec<u16>)> {
             let ctl = Ctl::new();
-            let rt = tokio::runtime::Builder::new_multi_thread().worker_threads(4).max_blocking_threads(64).enable_all().build().ok()?;
+            let rt = tokio::runtime::Builder::new_multi_thread().worker_threads(4).max_blocking_threads(64).thread_name(ctl.thread_name.clone()).enable_all().build().ok()?;
             let mut ports = Vec::new();
-            for _ in 0..p.nl {
+            for _ in 0..nl {
                 let mut port = next_port();
                 let mut tries = 0;
                 while !port_is_free(port) || ports.contains(&port) {
@@ -405,9 +465,11 @@ mod replay {
             }
             let c2 = Arc::clone(&ctl);
             kvarn::verif::set_hook(Some(Arc::new(move |name, val| c2.arrive(name, val))));
-            let c3 = Arc::clone(&ctl);
-            let ports2 = ports.clone();
-            let mgr = rt.block_on(async move {
+            Some((ctl, rt, ports))
+        }
+        /// the server under test: one host whose every request is answered by the scheduled handler
+        async fn serve(c3: Arc<Ctl>, ports2: Vec<u16>) -> Arc<shutdown::Manager> {
+            {
                 let mut ext = Extensions::empty();
                 let c4 = Arc::clone(&c3);
                 ext.add_prepare_fn(
@@ -432,7 +494,11 @@ mod replay {
                     rc = rc.bind(PortDescriptor::unsecure(*port, Arc::clone(&data)).ipv4_only());
                 }
                 rc.disable_ctl().execute().await
-            });
+            }
+        }
+        fn start(p: Params) -> Option<Run> {
+            let (ctl, rt, ports) = Self::prepare(p.nl)?;
+            let mgr = rt.block_on(Self::serve(Arc::clone(&ctl), ports.clone()));
             let mut run = Run {
                 lst: vec![LSt::Running; p.nl],
                 queues: vec![Vec::new(); p.nl],
@@ -445,49 +511,186 @@ mod replay {
                 p,
                 ctl,
                 rt,
-                mgr,
+                mgr: Some(mgr),
+                boot_rx: None,
+                bk: 0,
+                bph: 0,
+                boot_shape: true,
                 ports,
             };
+            run.bk = run.p.nl;
             // listeners reach the top of their loop
             for port in run.ports.clone() {
-                run.ctl.at(Role::Listener(port), STEP_TIMEOUT)?;
+                run.ctl.at(Role::Listener(port), step_timeout())?;
             }
+            run.after_boot()?;
+            Some(run)
+        }
+        /// `execute()` runs on a thread of its own that stops at the points of the start-up program; it has passed the
+        /// first listener's count (there is no point before it) and waits before creating the first socket
+        fn start_boot(p: Params) -> Option<Run> {
+            let (ctl, rt, ports) = Self::prepare(p.nl)?;
+            let (tx, rx) = std::sync::mpsc::channel();
+            let (c3, ports2, handle) = (Arc::clone(&ctl), ports.clone(), rt.handle().clone());
+            std::thread::Builder::new().name(ctl.thread_name.clone()).spawn(move || {
+                let me = hash_id(&std::thread::current().id());
+                c3.inner.lock().unwrap().exec_os = Some(me);
+                let mgr = handle.block_on(Self::serve(Arc::clone(&c3), ports2));
+                let _ = tx.send(mgr);
+            }).ok()?;
+            let mut run = Run {
+                lst: vec![LSt::Running; p.nl],
+                queues: vec![Vec::new(); p.nl],
+                hooks: (0..p.nh).map(|_| HSt::New).collect(),
+                waiters: Vec::new(),
+                w_seen: vec![false; p.nw],
+                caller_threads: Vec::new(),
+                clients: Vec::new(),
+                conn_order: Vec::new(),
+                p,
+                ctl,
+                rt,
+                mgr: None,
+                boot_rx: Some(rx),
+                bk: 0,
+                bph: 0,
+                boot_shape: true,
+                ports,
+            };
+            let ok = if run.p.nl == 0 {
+                run.boot_returned(0).is_ok()
+            } else {
+                matches!(run.ctl.at(Role::Exec, step_timeout()), Some(("ex.bind", v)) if v == i64::from(run.ports[0]))
+            };
+            if !ok {
+                // execute() does not come to the first point of the start-up program: not the program of the model
+                run.boot_shape = false;
+            }
+            Some(run)
+        }
+        fn boot_returned(&mut self, step: usize) -> Result<(), Fail> {
+            let rx = self.boot_rx.take().ok_or(Fail::Bad)?;
+            match rx.recv_timeout(step_timeout()) {
+                Ok(m) => {
+                    self.mgr = Some(m);
+                    Ok(())
+                }
+                Err(_) => Err(Fail::Stalled(step)),
+            }
+        }
+        fn booting(&self) -> bool {
+            self.mgr.is_none()
+        }
+        /// one action of `execute()` (see Model/ShutdownBoot.v)
+        fn boot_exec(&mut self, step: usize) -> Result<(), Fail> {
+            if self.bk >= self.p.nl {
+                return Err(Fail::Bad);
+            }
+            let port = i64::from(self.ports[self.bk]);
+            match self.bph {
+                0 => {
+                    // the count is taken on the way to the point before the socket is created: nothing to release
+                    match self.ctl.at(Role::Exec, step_timeout()) {
+                        Some(("ex.bind", v)) if v == port => {
+                            self.bph = 1;
+                            Ok(())
+                        }
+                        _ => Err(Fail::Stalled(step)),
+                    }
+                }
+                1 => match self.advance(Role::Exec, step)? {
+                    ("ex.bound", v) if v == port => {
+                        self.bph = 2;
+                        Ok(())
+                    }
+                    _ => Err(Fail::Stalled(step)),
+                },
+                _ => {
+                    if !self.ctl.release(Role::Exec) {
+                        return Err(Fail::Bad);
+                    }
+                    // the accept task appears at the top of its loop ...
+                    self.ctl.at(Role::Listener(self.ports[self.bk]), step_timeout()).ok_or(Fail::Stalled(step))?;
+                    self.bk += 1;
+                    self.bph = 0;
+                    // ... and execute() goes on to the next listener (taking its count on the way) or returns
+                    if self.bk < self.p.nl {
+                        match self.ctl.at(Role::Exec, step_timeout()) {
+                            Some(("ex.bind", v)) if v == i64::from(self.ports[self.bk]) => Ok(()),
+                            _ => Err(Fail::Stalled(step)),
+                        }
+                    } else {
+                        self.boot_returned(step)
+                    }
+                }
+            }
+        }
+        fn bexec(&mut self, lb: (u8, usize), step: usize) -> Result<(), Fail> {
+            match lb.0 {
+                9 => self.boot_exec(step),
+                10 => {
+                    if self.bk >= self.p.nl || self.bph != 2 {
+                        return Err(Fail::Bad);
+                    }
+                    self.env_conn(self.bk, step)
+                }
+                0..=2 => {
+                    if lb.1 >= self.bk {
+                        return Err(Fail::Bad);
+                    }
+                    self.exec(lb, step)
+                }
+                3 | 4 => self.exec(lb, step),
+                _ => Err(Fail::Bad),
+            }
+        }
+        /// what can be seen while execute() has not returned: no handle on the manager yet
+        fn bobs(&self) -> X {
+            let (l, c) = self.pcs(self.bk);
+            X::L(vec![X::N(u128::from(self.bph)), X::N(self.bk as u128), X::L(l), X::L(c)])
+        }
+        /// the threads that get the manager when execute() has returned
+        fn after_boot(&mut self) -> Option<()> {
+            let run = self;
+            let mgr0 = Arc::clone(run.mgr.as_ref()?);
             // callers block before their first access
             for k in 0..run.p.nc {
                 let ctl = Arc::clone(&run.ctl);
-                let mgr = Arc::clone(&run.mgr);
+                let mgr = Arc::clone(&mgr0);
                 let handle = run.rt.handle().clone();
                 let (tx, rx) = std::sync::mpsc::channel();
-                run.caller_threads.push(std::thread::spawn(move || {
+                let name = run.ctl.thread_name.clone();
+                run.caller_threads.push(std::thread::Builder::new().name(name).spawn(move || {
                     let _enter = handle.enter();
                     let me = hash_id(&std::thread::current().id());
                     ctl.inner.lock().unwrap().caller_reg.insert(me, k);
                     let _ = tx.send(());
                     mgr.shutdown();
-                }));
-                let _ = rx.recv_timeout(STEP_TIMEOUT);
-                run.ctl.at(Role::Caller(k), STEP_TIMEOUT)?;
+                }).ok()?);
+                let _ = rx.recv_timeout(step_timeout());
+                run.ctl.at(Role::Caller(k), step_timeout())?;
             }
             for _ in 0..run.p.nw {
                 let flag = Arc::new(AtomicBool::new(false));
                 let f2 = Arc::clone(&flag);
-                let mgr = Arc::clone(&run.mgr);
+                let mgr = Arc::clone(&mgr0);
                 run.rt.spawn(async move {
                     mgr.wait().await;
                     f2.store(true, Ordering::SeqCst);
                 });
                 run.waiters.push(flag);
             }
-            Some(run)
+            Some(())
         }
 
         fn flag(&self) -> bool {
-            self.mgr.get_shutdown(std::sync::atomic::Ordering::SeqCst)
+            self.mgr.as_ref().map(|m| m.get_shutdown(std::sync::atomic::Ordering::SeqCst)).unwrap_or(false)
         }
 
-        fn obs(&self) -> X {
+        /// program counters of the first `nl` accept loops and of the connection tasks
+        fn pcs(&self, nl: usize) -> (Vec<X>, Vec<X>) {
             let mut l = Vec::new();
-            for (i, port) in self.ports.iter().enumerate() {
+            for (i, port) in self.ports.iter().enumerate().take(nl) {
                 let pc = if self.lst[i] == LSt::Parked {
                     4
                 } else {
@@ -511,6 +714,11 @@ mod replay {
                 };
                 c.push(X::N(pc));
             }
+            (l, c)
+        }
+        fn obs(&self) -> X {
+            let (l, c) = self.pcs(self.ports.len());
+            let mgr = match self.mgr.as_ref() { Some(m) => m, None => return X::L(vec![X::N(97)]) };
             let mut s = Vec::new();
             for k in 0..self.p.nc {
                 s.push(X::N(match self.ctl.peek(Role::Caller(k)).or(self.ctl.last(Role::Caller(k))) {
@@ -527,8 +735,8 @@ mod replay {
             let w = self.w_seen.iter().map(|w| X::bool(*w)).collect();
             X::L(vec![
                 X::bool(self.flag()),
-                X::z(self.mgr.get_connecions() as i128),
-                X::bool(finished_now(&self.mgr)),
+                X::z(mgr.get_connecions() as i128),
+                X::bool(finished_now(mgr)),
                 X::L(l),
                 X::L(c),
                 X::L(s),
@@ -543,12 +751,12 @@ mod replay {
             if !self.ctl.release(role) {
                 return Err(Fail::Bad);
             }
-            self.ctl.at(role, STEP_TIMEOUT).ok_or(Fail::Stalled(step))
+            self.ctl.at(role, step_timeout()).ok_or(Fail::Stalled(step))
         }
         fn comp_appears(&self, step: usize) -> Result<(), Fail> {
             if !self.ctl.known(Role::Comp) {
                 // the first swap spawns the completion task
-                self.ctl.at(Role::Comp, STEP_TIMEOUT).ok_or(Fail::Stalled(step))?;
+                self.ctl.at(Role::Comp, step_timeout()).ok_or(Fail::Stalled(step))?;
             }
             Ok(())
         }
@@ -591,6 +799,11 @@ mod replay {
                 Some(("ap.waker", _)) if !self.p.fix_c => {}
                 _ => return Err(Fail::Bad),
             }
+            if self.flag() {
+                // Both branches of the select! will be ready. The accept branch is only ready once the reactor has
+                // delivered the readiness of the listening socket: give it a moment (a failed guess costs a re-run).
+                std::thread::sleep(Duration::from_millis(15));
+            }
             let mut guard = 0;
             loop {
                 guard += 1;
@@ -609,7 +822,7 @@ mod replay {
                     }
                     None => {
                         // in flight (re-polled after a wake): wait for it
-                        cur = Some(self.ctl.at(role, STEP_TIMEOUT).ok_or(Fail::Stalled(step))?);
+                        cur = Some(self.ctl.at(role, step_timeout()).ok_or(Fail::Stalled(step))?);
                     }
                 }
             }
@@ -620,7 +833,7 @@ mod replay {
             let role = Role::Listener(port);
             if self.lst[i] == LSt::Parked {
                 // wake-up: by notify or by a queued connection
-                let a = self.ctl.at(role, STEP_TIMEOUT).ok_or(Fail::Stalled(step))?;
+                let a = self.ctl.at(role, step_timeout()).ok_or(Fail::Stalled(step))?;
                 self.lst[i] = LSt::Running;
                 return match a.0 {
                     "ap.poll" => Ok(()),
@@ -699,7 +912,7 @@ mod replay {
             self.clients[c].index = Some(self.conn_order.len());
             self.conn_order.push(c);
             let role = Role::Conn(self.clients[c].port);
-            let a = self.ctl.at(role, STEP_TIMEOUT).ok_or(Fail::Stalled(step))?;
+            let a = self.ctl.at(role, step_timeout()).ok_or(Fail::Stalled(step))?;
             if self.p.fix_a2 && a.0 == "co.start" {
                 // repaired shape: the task is counted already; run it up to the handler
                 self.to_handler(c, step)?;
@@ -709,7 +922,7 @@ mod replay {
         fn to_handler(&mut self, c: usize, step: usize) -> Result<(), Fail> {
             let role = Role::Conn(self.clients[c].port);
             for _ in 0..4 {
-                match self.ctl.at(role, STEP_TIMEOUT).ok_or(Fail::Stalled(step))?.0 {
+                match self.ctl.at(role, step_timeout()).ok_or(Fail::Stalled(step))?.0 {
                     "hd.run" => return Ok(()),
                     "co.start" | "co.counted" => {
                         self.ctl.release(role);
@@ -746,7 +959,7 @@ mod replay {
             let c = *self.conn_order.get(ci).ok_or(Fail::Bad)?;
             let port = self.clients[c].port;
             let role = Role::Conn(port);
-            let at = self.ctl.at(role, STEP_TIMEOUT).ok_or(Fail::Stalled(step))?;
+            let at = self.ctl.at(role, step_timeout()).ok_or(Fail::Stalled(step))?;
             match at.0 {
                 "co.start" if !panic => {
                     // today's shape: add_connection inside the task
@@ -771,7 +984,7 @@ mod replay {
                         self.clients[c].closed = true;
                         drop(stream);
                         if self.p.fix_b {
-                            self.ctl.at(role, STEP_TIMEOUT).ok_or(Fail::Stalled(step))?;
+                            self.ctl.at(role, step_timeout()).ok_or(Fail::Stalled(step))?;
                         } else {
                             std::thread::sleep(Duration::from_millis(5));
                         }
@@ -783,7 +996,7 @@ mod replay {
                         if !ok {
                             return Err(Fail::Stalled(step));
                         }
-                        let a = self.ctl.at(role, STEP_TIMEOUT).ok_or(Fail::Stalled(step))?;
+                        let a = self.ctl.at(role, step_timeout()).ok_or(Fail::Stalled(step))?;
                         if a.0 != "rm.enter" { return Err(Fail::Stalled(step)); }
                         Ok(())
                     }
@@ -816,12 +1029,13 @@ mod replay {
             let st = std::mem::replace(self.hooks.get_mut(h).ok_or(Fail::Bad)?, HSt::Acked);
             let (new, r) = match st {
                 HSt::New => {
-                    let fut = self.mgr.wait_for_pre_shutdown(); // registers synchronously
+                    let mgr0 = match self.mgr.as_ref() { Some(m) => Arc::clone(m), None => { self.hooks[h] = HSt::New; return Err(Fail::Bad) } };
+                    let mgr_ref: &'static shutdown::Manager = unsafe { &*Arc::as_ptr(&mgr0) }; // kept alive by the Arc moved into the task
+                    let fut = mgr_ref.wait_for_pre_shutdown(); // registers synchronously
                     let (tx, rx) = std::sync::mpsc::channel();
                     // SAFETY of the borrow: the manager lives in an Arc kept by the task
-                    let mgr = Arc::clone(&self.mgr);
-                    let fut: Pin<Box<dyn Future<Output = tokio::sync::mpsc::UnboundedSender<()>> + Send + '_>> = Box::pin(fut);
-                    let fut: Pin<Box<dyn Future<Output = tokio::sync::mpsc::UnboundedSender<()>> + Send + 'static>> = unsafe { std::mem::transmute(fut) };
+                    let mgr = mgr0;
+                    let fut: Pin<Box<dyn Future<Output = tokio::sync::mpsc::UnboundedSender<()>> + Send + 'static>> = Box::pin(fut);
                     self.rt.spawn(async move {
                         let s = fut.await;
                         let _ = tx.send(s);
@@ -829,7 +1043,7 @@ mod replay {
                     });
                     (HSt::Reg(rx), Ok(()))
                 }
-                HSt::Reg(rx) => match rx.recv_timeout(STEP_TIMEOUT) {
+                HSt::Reg(rx) => match rx.recv_timeout(step_timeout()) {
                     Ok(s) => (HSt::Sig(s), Ok(())),
                     Err(_) => (HSt::Reg(rx), Err(Fail::Stalled(step))),
                 },
@@ -846,7 +1060,7 @@ mod replay {
             let f = self.waiters.get(w).ok_or(Fail::Bad)?;
             let t0 = Instant::now();
             while !f.load(Ordering::SeqCst) {
-                if t0.elapsed() > STEP_TIMEOUT {
+                if t0.elapsed() > step_timeout() {
                     return Err(Fail::Stalled(step));
                 }
                 std::thread::sleep(Duration::from_micros(200));
@@ -917,7 +1131,7 @@ mod replay {
                         o => o,
                     };
                 }
-                let fin = finished_now(&self.mgr);
+                let fin = self.mgr.as_ref().map(|m| finished_now(m)).unwrap_or(false);
                 let waiters = self.waiters.iter().all(|w| w.load(Ordering::SeqCst));
                 let conns = self.conns_over();
                 if (all && fin && waiters && conns) || Instant::now() > deadline {
@@ -942,7 +1156,7 @@ mod replay {
                 std::thread::sleep(Duration::from_millis(2));
             }
             let closed = self.ports.iter().map(|p| port_is_free(*p)).fold(true, |a, b| a && b);
-            let fin = finished_now(&self.mgr);
+            let fin = self.mgr.as_ref().map(|m| finished_now(m)).unwrap_or(false);
             let out = X::L(vec![
                 X::bool(fin),
                 X::bool(closed),
@@ -971,9 +1185,74 @@ mod replay {
         }
     }
 
-    pub fn replay(p: impl Fn() -> Params, sched: &[(u8, usize)]) -> X {
-        for _attempt in 0..8 {
-            let mut run = match Run::start(p()) { Some(r) => r, None => { if std::env::var("KVH_C10_DEBUG").is_ok() { eprintln!("start failed"); } continue } };
+    /// `boot`: None = the schedule starts when `execute()` has returned (the model's `init`);
+    /// Some(labels) = a start-up schedule first (Model/ShutdownBoot.v), the output then has the start-up observations in front
+    pub fn replay(p: impl Fn() -> Params, boot: Option<&[(u8, usize)]>, sched: &[(u8, usize)]) -> X {
+        let mut stalled_before = false;
+        let retry_stall = |stalled_before: &mut bool, at: usize| -> bool {
+            // An expected arrival did not happen in time. If the code really does something else it
+            // will do so again; a machine that is overloaded for seconds will (hopefully) not: run once more.
+            if !*stalled_before && STALLS_RETRIED.fetch_add(1, Ordering::Relaxed) < STALL_RETRY_BUDGET {
+                if debug() { eprintln!("stalled at {at}: once more"); }
+                *stalled_before = true;
+                true
+            } else {
+                STALLS_REPORTED.fetch_add(1, Ordering::Relaxed);
+                false
+            }
+        };
+        'attempt: for _attempt in 0..ATTEMPTS {
+            let started = if boot.is_some() { Run::start_boot(p()) } else { Run::start(p()) };
+            let mut run = match started { Some(r) => r, None => { if debug() { eprintln!("start failed"); } continue } };
+            let mut out = Vec::new();
+            if let Some(bsched) = boot {
+                let mut bobs = Vec::new();
+                let mut fail = if run.boot_shape { None } else { Some(Fail::Stalled(0)) };
+                for (n, lb) in bsched.iter().enumerate() {
+                    if fail.is_some() {
+                        break;
+                    }
+                    match run.bexec(*lb, n) {
+                        Ok(()) => bobs.push(run.bobs()),
+                        Err(f) => {
+                            fail = Some(f);
+                            break;
+                        }
+                    }
+                }
+                if run.ctl.unscheduled() > 0 {
+                    bobs.push(X::L(vec![X::N(79)]));
+                }
+                let marker = match fail {
+                    None => None,
+                    Some(Fail::Diverged) => {
+                        if debug() { eprintln!("diverged in start-up at {}", bobs.len()); }
+                        run.abort();
+                        continue 'attempt;
+                    }
+                    Some(Fail::Bad) => Some(77),
+                    Some(Fail::Stalled(_)) => {
+                        if retry_stall(&mut stalled_before, bobs.len()) {
+                            run.abort();
+                            continue 'attempt;
+                        }
+                        Some(78)
+                    }
+                };
+                if let Some(m) = marker {
+                    bobs.push(X::L(vec![X::N(m)]));
+                }
+                if marker.is_some() || run.booting() {
+                    // not a start-up that ends with execute() returning the manager: nothing follows
+                    run.abort();
+                    return X::L(vec![X::L(bobs), X::L(vec![]), X::L(vec![])]);
+                }
+                if run.after_boot().is_none() {
+                    run.abort();
+                    continue 'attempt;
+                }
+                out.push(X::L(bobs));
+            }
             let mut obs = Vec::new();
             let mut fail = None;
             for (n, lb) in sched.iter().enumerate() {
@@ -985,26 +1264,42 @@ mod replay {
                     }
                 }
             }
+            // accesses to the manager by a thread that is none of the model's threads: not a run of the model
+            let stray = run.ctl.unscheduled();
+            if stray > 0 {
+                if debug() { eprintln!("{stray} unscheduled arrivals"); }
+                obs.push(X::L(vec![X::N(79)]));
+            }
             match fail {
                 None => {
                     let fin = run.finish();
-                    return X::L(vec![X::L(obs), fin]);
+                    out.push(X::L(obs));
+                    out.push(fin);
+                    return X::L(out);
                 }
                 Some(Fail::Diverged) => {
-                    if std::env::var("KVH_C10_DEBUG").is_ok() { eprintln!("diverged at {}", obs.len()); }
+                    if debug() { eprintln!("diverged at {}", obs.len()); }
                     run.abort();
                     continue;
                 }
                 Some(Fail::Bad) => {
                     obs.push(X::L(vec![X::N(77)]));
                     run.abort();
-                    return X::L(vec![X::L(obs), X::L(vec![])]);
+                    out.push(X::L(obs));
+                    out.push(X::L(vec![]));
+                    return X::L(out);
                 }
                 Some(Fail::Stalled(_)) => {
+                    if retry_stall(&mut stalled_before, obs.len()) {
+                        run.abort();
+                        continue;
+                    }
                     // the code did not do what the schedule expects of it: report what was seen and the outcome
                     obs.push(X::L(vec![X::N(78)]));
                     let fin = run.finish();
-                    return X::L(vec![X::L(obs), fin]);
+                    out.push(X::L(obs));
+                    out.push(fin);
+                    return X::L(out);
                 }
             }
         }
@@ -1012,6 +1307,24 @@ mod replay {
     }
 }
 
+#[cfg(feature = "hooks")]
+fn parse_sched(x: &X, max_kind: u128) -> Option<Vec<(u8, usize)>> {
+    let mut sched = Vec::new();
+    for e in x.as_l()? {
+        match e.as_l() {
+            Some([X::N(c), X::N(a)]) if *c <= max_kind => sched.push((*c as u8, *a as usize)),
+            _ => return None,
+        }
+    }
+    Some(sched)
+}
+#[cfg(feature = "hooks")]
+fn parse_counts(x: &X) -> Option<(usize, usize, usize, usize)> {
+    match x.as_l() {
+        Some([X::N(a), X::N(b), X::N(c), X::N(d)]) if *a <= 16 && *b <= 16 && *c <= 16 && *d <= 16 => Some((*a as usize, *b as usize, *c as usize, *d as usize)),
+        _ => None,
+    }
+}
 #[cfg(feature = "hooks")]
 pub fn replay(x: &X) -> X {
     let l = match x.as_l() { Some(l) if l.len() == 3 => l, _ => return X::bad() };
@@ -1021,18 +1334,26 @@ pub fn replay(x: &X) -> X {
         Some([a, b, c, d]) => match (a.as_bool(), b.as_bool(), c.as_bool(), d.as_bool()) { (Some(a), Some(b), Some(c), Some(d)) => (a, b, c, d), _ => return X::bad() },
         _ => return X::bad(),
     };
-    let n = match l[1].as_l() { Some([X::N(a), X::N(b), X::N(c), X::N(d)]) if *a <= 16 && *b <= 16 && *c <= 16 && *d <= 16 => (*a as usize, *b as usize, *c as usize, *d as usize), _ => return X::bad() };
-    let mut sched = Vec::new();
-    for e in match l[2].as_l() { Some(e) => e, None => return X::bad() } {
-        match e.as_l() {
-            Some([X::N(c), X::N(a)]) if *c <= 8 => sched.push((*c as u8, *a as usize)),
-            _ => return X::bad(),
-        }
-    }
-    replay::replay(|| replay::Params { fix_a: v.0, fix_a2: v.3, fix_b: v.1, fix_c: v.2, nl: n.0, nc: n.1, nh: n.2, nw: n.3 }, &sched)
+    let n = match parse_counts(&l[1]) { Some(n) => n, None => return X::bad() };
+    let sched = match parse_sched(&l[2], 8) { Some(s) => s, None => return X::bad() };
+    replay::replay(|| replay::Params { fix_a: v.0, fix_a2: v.3, fix_b: v.1, fix_c: v.2, nl: n.0, nc: n.1, nh: n.2, nw: n.3 }, None, &sched)
+}
+/// input (L (L nl nc nh nw) (L start-up label ...) (L label ...)); start-up labels: (9 0) execute's next action,
+/// (10 0) a client connects to the bound, not yet spawned listener, (0..4 i) a thread that exists already
+#[cfg(feature = "hooks")]
+pub fn bootreplay(x: &X) -> X {
+    let l = match x.as_l() { Some(l) if l.len() == 3 => l, _ => return X::bad() };
+    let n = match parse_counts(&l[0]) { Some(n) => n, None => return X::bad() };
+    let bsched = match parse_sched(&l[1], 10) { Some(s) if s.iter().all(|(k, _)| *k <= 4 || *k >= 9) => s, _ => return X::bad() };
+    let sched = match parse_sched(&l[2], 8) { Some(s) => s, None => return X::bad() };
+    replay::replay(|| replay::Params { fix_a: true, fix_a2: true, fix_b: true, fix_c: true, nl: n.0, nc: n.1, nh: n.2, nw: n.3 }, Some(&bsched), &sched)
 }
 #[cfg(not(feature = "hooks"))]
 pub fn replay(_x: &X) -> X {
+    X::L(vec![X::N(96), X::N(2)])
+}
+#[cfg(not(feature = "hooks"))]
+pub fn bootreplay(_x: &X) -> X {
     X::L(vec![X::N(96), X::N(2)])
 }
 
@@ -1040,6 +1361,7 @@ pub fn dispatch(comp: &str, x: &X) -> Option<X> {
     Some(match comp {
         "shutdown.methods" => methods(x),
         "shutdown.replay" => replay(x),
+        "shutdown.bootreplay" => bootreplay(x),
         _ => return None,
     })
 }
